@@ -189,6 +189,24 @@ func mixedGraphConfigN(n int, kind func(i, j int) int, sharedNames bool) *cfg.Co
 			}
 		}
 	}
+	if sharedNames {
+		// patterns naming several parameters AFTER the @service / !tagged arguments (and in decorator arguments): however many
+		// parameter references an argument list holds, its service references stay what they are
+		for i := range c.Services {
+			if si := &c.Services[i]; len(si.Args) > 0 && i%2 == 0 {
+				var sb strings.Builder
+				for k := 0; k < 3+i%3+len(si.Args); k++ {
+					sb.WriteString(fmt.Sprintf("%%s%d%%:", k%n))
+				}
+				si.Args = append(si.Args, cfg.Str(sb.String()))
+			}
+		}
+		for d := range c.Decorators {
+			if d%2 == 1 {
+				c.Decorators[d].Args = append(c.Decorators[d].Args, cfg.Str(fmt.Sprintf("%%s0%%/%%s%d%%/%%s0%%/%%s%d%%", (d+1)%n, d%n)))
+			}
+		}
+	}
 	return c
 }
 
